@@ -13,6 +13,10 @@ var (
 
 	// ErrInvalidVersion is returned by Encode if the version number is too high to encode as base-32.
 	ErrInvalidVersion = fmt.Errorf("Cannot encode version byte higher than %d", len(Alphabet)-1)
+
+	// ErrPayloadTooLong is returned by Encode if the encoded string would be longer
+	// than MaxLength characters, which Decode would refuse to decode.
+	ErrPayloadTooLong = fmt.Errorf("Cannot encode a bech32 string longer than %d characters", MaxLength)
 )
 
 // encodeValues converts an hrp and a slice of alphabet indeces to a bech32 string.
@@ -64,5 +68,9 @@ func Encode(hrp string, version byte, data []byte) (string, error) {
 
 	values := bytesToIndeces(data)
 	values = append([]uint5{uint5(version)}, values...)
+	if len(hrp)+len(Separator)+len(values)+ChecksumSize > MaxLength {
+		return "", ErrPayloadTooLong
+	}
+
 	return encodeValues(hrp, values), nil
 }
